@@ -198,6 +198,12 @@ class Check:
     # ---------------------------------------------------------------- results
     def write_replay(self, case):
         os.makedirs(REPLAYS, exist_ok=True)
+        if not getattr(self, "_replays_cleared", False):
+            # the replay files of an earlier run of the same check are stale
+            import glob
+            for old in glob.glob(os.path.join(REPLAYS, "%s_%s_*.json" % (self.pid, self.tier))):
+                os.remove(old)
+            self._replays_cleared = True
         n = 0
         while True:
             path = os.path.join(REPLAYS, "%s_%s_%d.json" % (self.pid, self.tier, n))
